@@ -74,7 +74,10 @@ func (f *Func) Init(raw string) error {
 		return fmt.Errorf("bad function reference: %w", err)
 	}
 	// Update the index in the unescaped string.
-	endPkg += len(f.Complete) - len(raw)
+	if endPkg > 0 {
+		// Only the escapes in the path part move the separator.
+		endPkg -= 2 * strings.Count(raw[:endPkg], "%")
+	}
 	if endPkg != -1 {
 		f.ImportPath = f.Complete[:endPkg]
 	}
